@@ -30,6 +30,9 @@ type rThread struct {
 	kind   uint8
 	latch  *smutex.SMutex128
 	arg    uint32
+	mu     unsafe.Pointer // ptMuLock: the mutex about to be acquired
+	muRW   bool
+	muW    bool
 	done   bool
 	panicV any
 	body   func()
@@ -52,6 +55,7 @@ type rSim struct {
 	hung     bool
 	dead     bool
 	desc     string
+	muMuted  bool // mutex points do not yield in this run unless the mutex is held (buggify)
 }
 
 var rs *rSim
@@ -117,6 +121,29 @@ func raceHook(c *column.Collection, latch *smutex.SMutex128, p column.SimPoint, 
 	rawRead(t.rfd)
 }
 
+// raceMuHook is the mutex hook of the instrumented build in race mode.
+//
+//go:norace
+func raceMuHook(mu any, write bool) {
+	s := rs
+	if s == nil || s.cur == nil {
+		return
+	}
+	p, rw, ok := muPtr(mu)
+	if !ok {
+		return
+	}
+	t := s.cur
+	t.kind, t.latch, t.arg = ptMuLock, nil, 0
+	t.mu, t.muRW, t.muW = p, rw, write
+	s.hits[ptMuLock]++
+	if s.muMuted && muFree(p, rw, write) {
+		return
+	}
+	rawWrite(s.sw)
+	rawRead(t.rfd)
+}
+
 // rYield is a harness yield point in race mode.
 //
 //go:norace
@@ -165,6 +192,8 @@ func (s *rSim) enabled(t *rThread) bool {
 	case uint8(column.SimBeforeLock):
 		r, w := latchState(t.latch, t.arg)
 		return !w && r == 0
+	case ptMuLock:
+		return muFree(t.mu, t.muRW, t.muW)
 	}
 	return true
 }
@@ -419,6 +448,9 @@ func runRace(cs *Case) (w *World) {
 	s := &rSim{rng: NewRng(cs.SchedSeed, 3), strategy: cs.Strategy, replay: cs.Sched, trace: hashInit, ilv: hashInit}
 	if cs.Sched == nil {
 		s.replay = nil
+	}
+	for _, k := range cs.Muted {
+		s.muMuted = s.muMuted || k == int(ptMuLock)
 	}
 	var fds [2]int
 	if err := syscall.Pipe(fds[:]); err != nil {
